@@ -410,4 +410,322 @@ Proof.
     { intros [= <- <- <-]. rewrite !is_nf_app, is_nf_opaque, is_nf_end_split. discriminate. }
     destruct (is_kind KRBracket c); intros [= <- <- <-]; rewrite ?is_nf_app, is_nf_opaque, is_nf_end_split; discriminate.
 Qed.
+
+(** *** shared shapes *)
+Lemma cons_list x xs u1 u2 : toks_expr x u1 ->
+  ((xs = [] /\ u2 = []) \/ exists c tl, u2 = c :: tl /\ tkind c = KComma /\ toks_list xs tl /\ xs <> []) ->
+  toks_list (x :: xs) (u1 ++ u2).
+Proof.
+  intros Hx [[-> ->]|(c & tl & -> & Hc & Hl & Hne)].
+  - rewrite app_nil_r. constructor. exact Hx.
+  - constructor; assumption.
+Qed.
+
+Lemma orb_false {a b} : a || b = false -> a = false /\ b = false.
+Proof. apply Bool.orb_false_iff. Qed.
+
+(** *** inner: literal, name, call, parenthesised *)
+Lemma qual_single i used : toks_qual [i] used -> exists t, used = [t] /\ ident_tok i t.
+Proof. intros H. inversion H as [i0 t Hi|i0 t d r tr Hi Hd Hr]; subst; [eauto|inversion Hr]. Qed.
+
+Lemma step_inner f : S_simple pexpr f -> S_list f -> S_simple pinner (S f).
+Proof.
+  intros [Hes Hen] [Hls Hln]. split.
+  - intros ts x rest. rewrite p_inner_S. destruct ts as [|t r]; [discriminate|].
+    destruct (is_kind KNumber t || is_kind KString t) eqn:Elit.
+    { intros [= <- <-]. exists [t]. split; [reflexivity|].
+      apply te_lit with (t := t); try reflexivity.
+      apply Bool.orb_true_iff in Elit as [E|E]; apply is_kind_eq in E; auto. }
+    assert (Hq : forall ps r1 e, (option_map EQual ps, r1, e) = (Some x, rest, []) -> p_qualified srclen (t :: r) = (ps, r1, e) ->
+                 exists used, t :: r = used ++ rest /\ toks_expr x used).
+    { intros ps r1 e [= Hps <- ->] Hpq. apply option_map_some in Hps as (ps' & -> & ->).
+      apply p_qualified_sound in Hpq as (used & Hu & Hq & _). exists used. split; [exact Hu|constructor; exact Hq]. }
+    destruct (is_kind KIdentifier t) eqn:Eid.
+    { destruct (p_qualified srclen (t :: r)) as [[ps r1] e] eqn:Epq.
+      destruct ps as [[|i [|j l]]|]; try (intros H; eapply Hq; [exact H|reflexivity]).
+      pose proof (p_qualified_sound _ _ _ _ _ Epq) as (usedq & Hts & Hqq & ->).
+      apply qual_single in Hqq as (tf & -> & Hif). cbn [app] in Hts. injection Hts as <- ->.
+      assert (Hnq : iquoted i = false).
+      { destruct Hif as (Hk & _). apply is_kind_eq in Eid. rewrite Eid in Hk. destruct (iquoted i); [discriminate|reflexivity]. }
+      destruct r1 as [|lp r2].
+      { intros [= <- <-]. exists [t]. split; [reflexivity|]. constructor. constructor. exact Hif. }
+      destruct (is_kind KLParen lp) eqn:Elp.
+      2:{ intros [= <- <-]. exists [t]. split; [reflexivity|]. constructor. constructor. exact Hif. }
+      destruct (split KRParen r2) as [sub rest0] eqn:Esp.
+      pose proof (split_partition KRParen r2) as Hp. rewrite Esp in Hp. cbn [fst snd] in Hp.
+      destruct (plist f sub) as [[args subrest] ea] eqn:El.
+      destruct (is_nf ea) eqn:Enf.
+      + (* no arguments *)
+        pose proof (Hln _ _ _ _ El Enf) as ->.
+        destruct rest0 as [|c rest']; [discriminate|].
+        destruct (is_kind KRParen c) eqn:Erp; [|discriminate].
+        intros [= Hx <- He]. cbn [app] in He. apply end_split_nil in He. subst sub.
+        cbn [app when_ok no_err end_split option_map] in Hx. injection Hx as <-.
+        exists (t :: lp :: [] ++ [c]). split; [subst r2; reflexivity|].
+        apply te_call; [exact Hif|exact Hnq|split; [apply is_kind_eq; exact Elp|reflexivity]|constructor|split; [apply is_kind_eq; exact Erp|reflexivity]].
+      + destruct (no_err ea) eqn:Ene.
+        * apply no_err_true in Ene. subst ea.
+          assert (Hcase : forall args' subrest', (args' = args /\ ((exists c0, subrest = c0 :: subrest' /\ tkind c0 = KComma) \/ subrest' = subrest)) ->
+                    match rest0 with
+                    | c :: rest' =>
+                      if is_kind KRParen c then
+                        (when_ok ([] ++ end_split subrest') (option_map (fun a => ECall i (tok_span lp) a (tok_span c)) args'), rest', [] ++ end_split subrest')
+                      else (None, rest0, ([] ++ end_split subrest') ++ err_at (tstart c))
+                    | [] => (None, [], ([] ++ end_split subrest') ++ err_at srclen)
+                    end = (Some x, rest, []) -> exists used, t :: lp :: r2 = used ++ rest /\ toks_expr x used).
+          { intros args' subrest' (-> & Hsr).
+            destruct rest0 as [|c rest']; [discriminate|].
+            destruct (is_kind KRParen c) eqn:Erp; [|discriminate].
+            cbn [app]. intros [= Hx <- He]. apply end_split_nil in He. subst subrest'.
+            cbn [when_ok no_err end_split] in Hx. apply option_map_some in Hx as (a & -> & ->).
+            destruct (Hls _ _ _ El) as (ul & Hsub & Hl & Hne).
+            exists (t :: lp :: sub ++ [c]). split; [subst r2; cbn [app]; rewrite <- app_assoc; reflexivity|].
+            apply te_call; [exact Hif|exact Hnq|split; [apply is_kind_eq; exact Elp|reflexivity]| |split; [apply is_kind_eq; exact Erp|reflexivity]].
+            destruct Hsr as [(c0 & -> & Hc0)| <-].
+            - subst sub. apply ta_trailing; assumption.
+            - rewrite app_nil_r in Hsub. subst sub. apply ta_list; assumption. }
+          destruct subrest as [|c0 sr]; [apply Hcase; auto|].
+          destruct (is_kind KComma c0) eqn:Ec0; apply Hcase; [|auto].
+          split; [reflexivity|left]. exists c0. split; [reflexivity|apply is_kind_eq; exact Ec0].
+        * destruct rest0 as [|c rest']; [discriminate|].
+          destruct (is_kind KRParen c); [|discriminate].
+          intros [= _ _ He]. apply app_nil_inv in He as [-> _]. discriminate. }
+    destruct (is_kind KQuotedIdentifier t) eqn:Eqid.
+    { destruct (p_qualified srclen (t :: r)) as [[ps r1] e] eqn:Epq. intros H. eapply Hq; [exact H|reflexivity]. }
+    destruct (is_kind KLParen t) eqn:Elp; [|discriminate].
+    destruct (split KRParen r) as [sub rest0] eqn:Esp.
+    pose proof (split_partition KRParen r) as Hp. rewrite Esp in Hp. cbn [fst snd] in Hp.
+    destruct (pexpr f sub) as [[x0 subrest] ex] eqn:Ee.
+    destruct rest0 as [|c rest']; [discriminate|].
+    destruct (is_kind KRParen c) eqn:Erp; [|discriminate].
+    intros [= Hx <- He]. apply app_nil_inv in He as [He1 He2]. apply opaque_nil in He1. apply end_split_nil in He2. subst ex subrest.
+    apply when_ok_some in Hx as (_ & Hx). apply option_map_some in Hx as (x1 & -> & ->).
+    destruct (Hes _ _ _ Ee) as (u & Hsub & Hu). rewrite app_nil_r in Hsub. subst u.
+    exists (t :: sub ++ [c]). split; [subst r; cbn [app]; rewrite <- app_assoc; reflexivity|].
+    apply te_paren; [split; [apply is_kind_eq; exact Elp|reflexivity]|exact Hu|split; [apply is_kind_eq; exact Erp|reflexivity]].
+  - intros ts x rest e. rewrite p_inner_S. destruct ts as [|t r]; [intros [= <- <- <-] _; reflexivity|].
+    destruct (is_kind KNumber t || is_kind KString t); [intros [= <- <- <-]; discriminate|].
+    assert (Hq : forall ps r1 e0, (option_map EQual ps, r1, e0) = (x, rest, e) -> p_qualified srclen (t :: r) = (ps, r1, e0) ->
+                 is_nf e = true -> rest = t :: r).
+    { intros ps r1 e0 [= <- <- <-] Hpq Hnf. eapply p_qualified_nf; eassumption. }
+    destruct (is_kind KIdentifier t).
+    { destruct (p_qualified srclen (t :: r)) as [[ps r1] e0] eqn:Epq.
+      destruct ps as [[|i [|j l]]|]; try (intros H; eapply Hq; [exact H|reflexivity]).
+      destruct r1 as [|lp r2]; [intros [= <- <- <-]; discriminate|].
+      destruct (is_kind KLParen lp); [|intros [= <- <- <-]; discriminate].
+      destruct (split KRParen r2) as [sub rest0].
+      destruct (plist f sub) as [[args subrest] ea] eqn:El.
+      intros H Hnf. exfalso. revert H Hnf.
+      assert (Hcase : forall (args' : option (list expr)) subrest' ea', is_nf ea' = false ->
+                 match rest0 with
+                 | c :: rest' =>
+                   if is_kind KRParen c then
+                     (when_ok (ea' ++ end_split subrest') (option_map (fun a => ECall i (tok_span lp) a (tok_span c)) args'), rest', ea' ++ end_split subrest')
+                   else (None, rest0, (ea' ++ end_split subrest') ++ err_at (tstart c))
+                 | [] => (None, [], (ea' ++ end_split subrest') ++ err_at srclen)
+                 end = (x, rest, e) -> is_nf e = true -> False).
+      { intros args' subrest' ea' Hea. destruct rest0 as [|c rest'].
+        - intros [= <- <- <-]. rewrite !is_nf_app, Hea, is_nf_end_split. discriminate.
+        - destruct (is_kind KRParen c); intros [= <- <- <-]; rewrite ?is_nf_app, Hea, is_nf_end_split; discriminate. }
+      destruct (is_nf ea) eqn:Enf; [apply Hcase; reflexivity|].
+      destruct (no_err ea); [|apply Hcase; exact Enf].
+      destruct subrest as [|c0 sr]; [apply Hcase; exact Enf|].
+      destruct (is_kind KComma c0); apply Hcase; exact Enf. }
+    destruct (is_kind KQuotedIdentifier t).
+    { destruct (p_qualified srclen (t :: r)) as [[ps r1] e0] eqn:Epq. intros H. eapply Hq; [exact H|reflexivity]. }
+    destruct (is_kind KLParen t); [|intros [= <- <- <-] _; reflexivity].
+    destruct (split KRParen r) as [sub rest0].
+    destruct (pexpr f sub) as [[x0 subrest] ex].
+    destruct rest0 as [|c rest'].
+    { intros [= <- <- <-]. rewrite !is_nf_app, is_nf_opaque, is_nf_end_split. discriminate. }
+    destruct (is_kind KRParen c); intros [= <- <- <-]; rewrite ?is_nf_app, is_nf_opaque, is_nf_end_split; discriminate.
+Qed.
+
+(** *** expr = unary, then the binary trail *)
+Lemma step_expr f : S_simple punary f -> S_trail f -> S_simple pexpr (S f).
+Proof.
+  intros [Hus Hun] [Hts Htn]. split.
+  - intros ts x rest. rewrite p_expr_S.
+    destruct (punary f ts) as [[x0 r1] e1] eqn:Eu.
+    destruct (is_nf e1) eqn:Enf.
+    { intros [= _ _ ->]. discriminate. }
+    destruct (ptrail f x0 0%Z r1) as [[x' r2] e2] eqn:Et.
+    intros [= Hx <- He]. apply app_nil_inv in He as [-> ->]. cbn [app when_ok no_err] in Hx. subst x'.
+    destruct (Hts _ _ _ _ _ Et) as (x1 & u2 & -> & -> & Hw).
+    destruct (Hus _ _ _ Eu) as (u1 & -> & Hu1).
+    exists (u1 ++ u2). split; [rewrite app_assoc; reflexivity|apply Hw; exact Hu1].
+  - intros ts x rest e. rewrite p_expr_S.
+    destruct (punary f ts) as [[x0 r1] e1] eqn:Eu.
+    destruct (is_nf e1) eqn:Enf.
+    { intros [= <- <- <-] _. eapply Hun; eassumption. }
+    destruct (ptrail f x0 0%Z r1) as [[x' r2] e2] eqn:Et.
+    intros [= <- <- <-]. rewrite is_nf_app, Enf, (Htn _ _ _ _ _ _ Et). discriminate.
+Qed.
+
+(** *** expression lists *)
+Lemma step_list f : S_simple pexpr f -> S_tail f -> S_list (S f).
+Proof.
+  intros [Hes Hen] [Hts Htn]. split.
+  - intros ts xs rest. rewrite p_expr_list_S.
+    destruct (pexpr f ts) as [[x r1] e1] eqn:Ee.
+    destruct (negb (no_err e1)) eqn:Ene; [discriminate|].
+    apply Bool.negb_false_iff in Ene. apply no_err_true in Ene. subst e1.
+    destruct (ptail f r1) as [[xs' r2] e2] eqn:Et.
+    intros [= Hx <- ->]. cbn [when_ok no_err] in Hx. apply opt_map2_some in Hx as (x1 & xs1 & -> & -> & ->).
+    destruct (Hes _ _ _ Ee) as (u1 & -> & Hu1).
+    destruct (Hts _ _ _ Et) as (u2 & -> & Hu2).
+    exists (u1 ++ u2). split; [rewrite app_assoc; reflexivity|]. split; [apply cons_list; assumption|discriminate].
+  - intros ts xs rest e. rewrite p_expr_list_S.
+    destruct (pexpr f ts) as [[x r1] e1] eqn:Ee.
+    destruct (negb (no_err e1)) eqn:Ene.
+    { intros [= <- <- <-] Hnf. eapply Hen; eassumption. }
+    destruct (ptail f r1) as [[xs' r2] e2] eqn:Et.
+    intros [= <- <- <-]. rewrite (Htn _ _ _ _ Et). discriminate.
+Qed.
+
+Lemma step_tail f : S_simple pexpr f -> S_tail f -> S_tail (S f).
+Proof.
+  intros [Hes Hen] [Hts Htn]. split.
+  - intros ts xs rest. rewrite p_expr_list_tail_S.
+    destruct ts as [|c r]; [intros [= <- <-]; exists []; auto|].
+    destruct (is_kind KComma c) eqn:Ec; [|intros [= <- <-]; exists []; auto].
+    destruct (pexpr f r) as [[x r1] e1] eqn:Ee.
+    destruct (is_nf e1) eqn:Enf; [intros [= <- <-]; exists []; auto|].
+    destruct (negb (no_err e1)) eqn:Ene; [discriminate|].
+    apply Bool.negb_false_iff in Ene. apply no_err_true in Ene. subst e1.
+    destruct (ptail f r1) as [[xs' r2] e2] eqn:Et.
+    intros [= Hx <- ->]. cbn [when_ok no_err] in Hx. apply opt_map2_some in Hx as (x1 & xs1 & -> & -> & ->).
+    destruct (Hes _ _ _ Ee) as (u1 & -> & Hu1).
+    destruct (Hts _ _ _ Et) as (u2 & -> & Hu2).
+    exists (c :: u1 ++ u2). split; [cbn [app]; rewrite app_assoc; reflexivity|].
+    right. exists c, (u1 ++ u2). repeat split; [apply is_kind_eq; exact Ec|apply cons_list; assumption|discriminate].
+  - intros ts xs rest e. rewrite p_expr_list_tail_S.
+    destruct ts as [|c r]; [intros [= <- <- <-]; reflexivity|].
+    destruct (is_kind KComma c); [|intros [= <- <- <-]; reflexivity].
+    destruct (pexpr f r) as [[x r1] e1] eqn:Ee.
+    destruct (is_nf e1); [intros [= <- <- <-]; reflexivity|].
+    destruct (negb (no_err e1)); [intros [= <- <- <-]; apply is_nf_opaque|].
+    destruct (ptail f r1) as [[xs' r2] e2] eqn:Et.
+    intros [= <- <- <-]. exact (Htn _ _ _ _ Et).
+Qed.
+
+(** *** the binary trail *)
+Lemma trail_id (x : option expr) e : x = Some e ->
+  exists x0 used, x = Some x0 /\ (forall ts : list token, ts = used ++ ts) /\ forall ux, toks_expr x0 ux -> toks_expr e (ux ++ used).
+Proof. intros ->. exists e, []. repeat split. intros ux H. rewrite app_nil_r. exact H. Qed.
+
+Lemma step_trail f : S_simple punary f -> S_list f -> S_trail f -> S_higher f -> S_trail (S f).
+Proof.
+  intros [Hus Hun] [Hls Hln] [Hts Htn] [Hhs Hhn]. split.
+  - intros xo minp ts e rest. rewrite p_trail_S. cbv zeta.
+    assert (Hid : forall tl, (xo, tl, @nil perr) = (Some e, rest, []) ->
+                  exists x used, xo = Some x /\ tl = used ++ rest /\ forall ux, toks_expr x ux -> toks_expr e (ux ++ used)).
+    { intros tl [= -> <-]. exists e, []. repeat split. intros ux H. rewrite app_nil_r. exact H. }
+    destruct ts as [|op1 r]; [apply Hid|].
+    destruct ((op_prec (tkind op1) <? 0)%Z || (op_prec (tkind op1) <? minp)%Z) eqn:Eprec; [intros H; exact (Hid _ H)|].
+    apply orb_false in Eprec as [Ep0 _]. apply Z.ltb_ge in Ep0.
+    destruct (is_kind KIn op1) eqn:Ein.
+    + destruct r as [|lp r1]; [discriminate|].
+      destruct (is_kind KLParen lp) eqn:Elp; [|discriminate].
+      destruct (split KRParen r1) as [sub rest0] eqn:Esp.
+      pose proof (split_partition KRParen r1) as Hp. rewrite Esp in Hp. cbn [fst snd] in Hp.
+      destruct (plist f sub) as [[vals subrest] ev] eqn:El.
+      destruct rest0 as [|c rest']; [discriminate|].
+      destruct (is_kind KRParen c) eqn:Erp; [|discriminate].
+      set (e1 := opaque ev ++ end_split subrest).
+      destruct (ptrail f (when_ok e1 (opt_map2 (fun x v => EIn x (tok_span op1) (tok_span lp) v (tok_span c)) xo vals)) minp rest') as [[x'' r2] e2] eqn:Et.
+      intros [= Hx <- He]. apply app_nil_inv in He as [He1 ->]. rewrite He1 in *. cbn [app when_ok no_err] in Hx, Et. subst x''.
+      subst e1. apply app_nil_inv in He1 as [Hev Hsr]. apply opaque_nil in Hev. apply end_split_nil in Hsr. subst ev subrest.
+      destruct (Hts _ _ _ _ _ Et) as (xin & u3 & Hxin & -> & Hw).
+      apply opt_map2_some in Hxin as (x0 & vs & -> & -> & ->).
+      destruct (Hls _ _ _ El) as (ul & Hsub & Hl & Hne). rewrite app_nil_r in Hsub. subst ul.
+      exists x0, (op1 :: lp :: sub ++ c :: u3). split; [reflexivity|]. split.
+      { subst r1. cbn [app]. rewrite <- app_assoc. reflexivity. }
+      intros ux Hux.
+      replace (ux ++ op1 :: lp :: sub ++ c :: u3) with ((ux ++ op1 :: lp :: sub ++ [c]) ++ u3)
+        by (rewrite <- !app_assoc; cbn [app]; rewrite <- app_assoc; reflexivity).
+      apply Hw. apply te_in; try assumption; (split; [apply is_kind_eq; assumption|reflexivity]).
+    + destruct (punary f r) as [[y r1] ey] eqn:Eu.
+      destruct (phigher f y (op_prec (tkind op1)) r1) as [[y' r2] e2] eqn:Eh.
+      set (e1 := opaque ey).
+      destruct (ptrail f (when_ok (e1 ++ e2) (opt_map2 (fun x y => EBin x (tok_span op1) (tkind op1) y) xo y')) minp r2) as [[x'' r3] e3] eqn:Et.
+      intros [= Hx <- He]. apply app_nil_inv in He as [He1 He23]. apply app_nil_inv in He23 as [-> ->].
+      rewrite He1 in *. cbn [app when_ok no_err] in Hx, Et. subst x''. subst e1. apply opaque_nil in He1. subst ey.
+      destruct (Hts _ _ _ _ _ Et) as (xb & u3 & Hxb & -> & Hw).
+      apply opt_map2_some in Hxb as (x0 & y1 & -> & -> & ->).
+      destruct (Hhs _ _ _ _ _ Eh) as (y0 & u2 & -> & -> & Hwy).
+      destruct (Hus _ _ _ Eu) as (u1 & -> & Hu1).
+      exists x0, (op1 :: u1 ++ u2 ++ u3). split; [reflexivity|]. split.
+      { cbn [app]. rewrite <- !app_assoc. reflexivity. }
+      intros ux Hux.
+      replace (ux ++ op1 :: u1 ++ u2 ++ u3) with ((ux ++ op1 :: (u1 ++ u2)) ++ u3)
+        by (rewrite <- !app_assoc; cbn [app]; rewrite <- app_assoc; reflexivity).
+      apply Hw. apply te_bin; [exact Ep0|apply is_kind_neq; exact Ein|exact Hux|split; reflexivity|apply Hwy; exact Hu1].
+  - intros xo minp ts e rest er. rewrite p_trail_S. cbv zeta.
+    destruct ts as [|op1 r]; [intros [= <- <- <-]; reflexivity|].
+    destruct (_ || _); [intros [= <- <- <-]; reflexivity|].
+    destruct (is_kind KIn op1).
+    + destruct r as [|lp r1]; [intros [= <- <- <-]; reflexivity|].
+      destruct (is_kind KLParen lp); [|intros [= <- <- <-]; reflexivity].
+      destruct (split KRParen r1) as [sub rest0].
+      destruct (plist f sub) as [[vals subrest] ev].
+      destruct rest0 as [|c rest'].
+      { intros [= <- <- <-]. rewrite !is_nf_app, is_nf_opaque, is_nf_end_split. reflexivity. }
+      destruct (is_kind KRParen c).
+      2:{ intros [= <- <- <-]. rewrite !is_nf_app, is_nf_opaque, is_nf_end_split. reflexivity. }
+      destruct (ptrail f _ minp rest') as [[x'' r2] e2] eqn:Et.
+      intros [= <- <- <-]. rewrite !is_nf_app, is_nf_opaque, is_nf_end_split, (Htn _ _ _ _ _ _ Et). reflexivity.
+    + destruct (punary f r) as [[y r1] ey].
+      destruct (phigher f y (op_prec (tkind op1)) r1) as [[y' r2] e2] eqn:Eh.
+      destruct (ptrail f _ minp r2) as [[x'' r3] e3] eqn:Et.
+      intros [= <- <- <-]. rewrite !is_nf_app, is_nf_opaque, (Hhn _ _ _ _ _ _ Eh), (Htn _ _ _ _ _ _ Et). reflexivity.
+Qed.
+
+Lemma step_higher f : S_trail f -> S_higher f -> S_higher (S f).
+Proof.
+  intros [Hts Htn] [Hhs Hhn]. split.
+  - intros yo prec1 ts e rest. rewrite p_higher_S. cbv zeta.
+    assert (Hid : forall tl, (yo, tl, @nil perr) = (Some e, rest, []) ->
+                  exists y used, yo = Some y /\ tl = used ++ rest /\ forall uy, toks_expr y uy -> toks_expr e (uy ++ used)).
+    { intros tl [= -> <-]. exists e, []. repeat split. intros ux H. rewrite app_nil_r. exact H. }
+    destruct ts as [|op2 r]; [apply Hid|].
+    destruct (_ || _); [intros H; exact (Hid _ H)|].
+    destruct (ptrail f yo (prec1 + 1)%Z (op2 :: r)) as [[y' r1] e1] eqn:Et.
+    destruct (phigher f y' prec1 r1) as [[y'' r2] e2] eqn:Eh.
+    intros [= Hx <- He]. apply app_nil_inv in He as [He1 ->]. apply opaque_nil in He1. subst e1.
+    cbn [opaque map app when_ok no_err] in Hx. subst y''.
+    destruct (Hhs _ _ _ _ _ Eh) as (ym & u2 & -> & -> & Hw2).
+    destruct (Hts _ _ _ _ _ Et) as (y0 & u1 & -> & Hu & Hw1).
+    exists y0, (u1 ++ u2). split; [reflexivity|]. split; [rewrite Hu, app_assoc; reflexivity|].
+    intros uy Huy. rewrite app_assoc. apply Hw2. apply Hw1. exact Huy.
+  - intros yo prec1 ts e rest er. rewrite p_higher_S. cbv zeta.
+    destruct ts as [|op2 r]; [intros [= <- <- <-]; reflexivity|].
+    destruct (_ || _); [intros [= <- <- <-]; reflexivity|].
+    destruct (ptrail f yo (prec1 + 1)%Z (op2 :: r)) as [[y' r1] e1] eqn:Et.
+    destruct (phigher f y' prec1 r1) as [[y'' r2] e2] eqn:Eh.
+    intros [= <- <- <-]. rewrite is_nf_app, is_nf_opaque, (Hhn _ _ _ _ _ _ Eh). reflexivity.
+Qed.
+
+(** *** all fuels *)
+Theorem sound_all f : Sound f.
+Proof.
+  induction f as [|f (He & Hu & Hp & Hi & Hl & Ht & Htr & Hh)]; [apply sound_0|].
+  unfold Sound. repeat split.
+  all: first [ apply step_expr; assumption | apply step_unary; assumption | apply step_primary; assumption
+             | apply step_inner; assumption | apply step_list; assumption | apply step_tail; assumption
+             | apply step_trail; assumption | apply step_higher; assumption ].
+Qed.
+
+(** The expression parser is sound: whenever it returns a tree without errors, the tokens it
+    consumed are exactly the tree's token sequence, with every recorded position the span of
+    its token; the tokens it leaves are the unconsumed suffix. *)
+Theorem p_expr_sound f ts x rest : pexpr f ts = (Some x, rest, []) -> exists used, ts = used ++ rest /\ toks_expr x used.
+Proof. destruct (sound_all f) as ((H & _) & _). apply H. Qed.
+
+Theorem p_expr_list_sound f ts xs rest : plist f ts = (Some xs, rest, []) ->
+  exists used, ts = used ++ rest /\ toks_list xs used /\ xs <> [].
+Proof. destruct (sound_all f) as (_ & _ & _ & _ & (H & _) & _). apply H. Qed.
+
+Theorem p_expr_nf f ts x rest e : pexpr f ts = (x, rest, e) -> is_nf e = true -> rest = ts.
+Proof. destruct (sound_all f) as ((_ & H) & _). apply H. Qed.
 End Exprs.
